@@ -16,6 +16,7 @@ import (
 )
 
 type G struct {
+	exact bool // addresses exactly as wide as their fields (for field-by-field round trips)
 	r     *Rng
 	names []string
 	kinds map[string]int // element kinds used in the current case
@@ -305,7 +306,7 @@ func (g *G) mf() (*of.MatchField, string) {
 		vt, mt = fmt.Sprintf("(AN %d)", v), fmt.Sprintf("(AN %d)", m)
 	case 1:
 		n := c.width
-		if g.r.Intn(8) == 0 && c.code != 38 {
+		if !g.exact && g.r.Intn(8) == 0 && c.code != 38 {
 			n = g.r.Intn(c.width + 3) // short or long address: copy() pads / cuts
 		}
 		vb, mb = g.r.Bytes(n), g.r.Bytes(c.width)
